@@ -307,7 +307,7 @@ def run(ctx):
     # every statement-kind template once, whatever the seed
     ksrc, kfeat = g9prog.statement_kinds_program(vlib.SplitMix(0xC01))
     progs.append(("det:statement-kinds", ksrc, kfeat))
-    nprog = ctx.n(36, 400)
+    nprog = ctx.n(30, 200)
     feats = dict(kfeat)
     for i in range(nprog):
         src, feat = g9prog.go_program(ctx.rng)
